@@ -14,6 +14,7 @@ import (
 	"verifharness/internal/evid"
 	"verifharness/internal/known"
 	"verifharness/internal/vgen"
+	"verifharness/internal/vstore"
 )
 
 const prop = "C19"
@@ -78,6 +79,7 @@ func genScenario() *rapid.Generator[*scenario] {
 		sc.Steps = rapid.SliceOfN(genStep(len(sc.Pool)), 3, evid.Pick(14, 24)).Draw(t, "steps")
 		sc.Wake = rapid.IntRange(0, 3).Draw(t, "final") != 0
 		sc.ViaCond = rapid.IntRange(0, 3).Draw(t, "viaCond") == 0
+		sc.ErrKind = rapid.SampledFrom([]int{vstore.ErrPlain, vstore.ErrPlain, vstore.ErrDeadline, vstore.ErrCanceled, vstore.ErrTimeout}).Draw(t, "errKind")
 		return sc
 	})
 }
